@@ -9,8 +9,8 @@ ENGINES = [
      "serves_properties": ["C01", "C06"],
      "kind_free_text": "one slot of one resource: inductive invariant for every capacity by Apalache; every operation sequence of a small instance enumerated by TLC and replayed into the real ResourceScenario / TaskScenario"},
     {"name": "E2 sched-universe", "path": "spec/Sched.tla + spec/MC_*.tla + harness/e2.py",
-     "serves_properties": ["C07", "C01", "C03", "C06", "C11"],
-     "kind_free_text": "spec -> code: TLC runs the scheduler state machine over bounded universes with all properties as invariants and every terminal state is replayed through rendered text into the real code"},
+     "serves_properties": ["C07", "C01", "C02", "C03", "C04", "C05", "C06", "C08", "C10", "C11"],
+     "kind_free_text": "spec -> code: TLC runs the scheduler state machine (Sched.tla) over ten bounded universes (MC_Core, MC_Tree, MC_SubSlot, MC_Alap, MC_Limits, MC_Alt, MC_Team, MC_Cal, MC_Total) with all properties as invariants; every terminal state is replayed through rendered text into the real code (final dates) or every project of the universe is traced and judged by TraceSched"},
     {"name": "E4 algebra", "path": "spec/Algebra.tla + harness/algrun.py + harness/props_alg.py",
      "serves_properties": ["C13", "C17"],
      "kind_free_text": "laws ASSUMEd and checked by TLC; recorded calls of compiled and pure implementations validated against the operators"},
@@ -33,14 +33,14 @@ TRACE_NOTE = ("trusted: TLC, CPython datetime/zoneinfo, the harness renderer (ab
 CLAIMS = {
     "C01": {"engine": "E1 sched-trace", "design_ref": "DESIGN.md 5/C01",
             "technique": "TLA+ trace validation (TLC) of hook-recorded ledger operations against SchedCore invariant P01; SlotLedger.tla: Apalache inductive invariant for any capacity + TLC-enumerated operation sequences replayed into the real ledger; MC_SubSlot universe traced (thorough)",
-            "text": "TLC evaluates the no-double-booking invariant (portions per slot fit, used <= capacity) on every observed Book / OffsetMark / Finish state of hundreds (quick) to thousands (thorough) of generated sub-slot / team / ALAP projects and of the repository fixtures",
+            "text": "TLC evaluates the no-double-booking invariant (portions per slot fit, used <= capacity; on the final ledger the portions of a shared slot fit side by side inside the reported intervals of their tasks) on every observed Book / OffsetMark / Finish state of hundreds (quick) to thousands (thorough) of generated sub-slot / team / ALAP projects and of the repository fixtures",
             "note": TRACE_NOTE},
     "C02": {"engine": "E1 sched-trace", "design_ref": "DESIGN.md 5/C02",
-            "technique": "TLA+ trace validation: every booked portion checked against the Calendar operators of SchedCore (zone step functions from zoneinfo)",
+            "technique": "TLA+ trace validation: every booked portion checked against the Calendar operators of SchedCore (zone step functions from zoneinfo); MC_Cal universe (calendars x zones incl. a DST week x leave x vacation, forward and backward) model-checked and every project traced",
             "text": "every portion a task finally keeps is checked instant by instant (at the calendar step of the project) against OnShiftSec of the spec, for generated calendars with zones, DST, night shifts, leaves, vacations, bookings, ASAP and ALAP",
             "note": TRACE_NOTE + " Projects with calendar edges off the slot grid are the class of the recorded finding KF-C02-misaligned and are skipped by the main exploration."},
     "C03": {"engine": "E1 sched-trace", "design_ref": "DESIGN.md 5/C03",
-            "technique": "TLA+ trace validation: exact integer tick accounting of the spec vs the implementation's float accumulation",
+            "technique": "TLA+ trace validation: exact integer tick accounting of the spec vs the implementation's float accumulation; MC_Alt universe (choice among primaries / alternatives / groups) model-checked and every project traced; MC_SubSlot / MC_Team traced (thorough)",
             "text": "at every Finish/Done TLC checks ticks booked per member = effort exactly, last booking needed and non-empty, team members same instants, one candidate set",
             "note": TRACE_NOTE},
     "C04": {"engine": "E1 sched-trace", "design_ref": "DESIGN.md 5/C04",
@@ -56,15 +56,15 @@ CLAIMS = {
             "text": "start <= end (< with work), start in earliest booked slot, end in closure of latest, milestones at their bound; ASAP and ALAP",
             "note": TRACE_NOTE},
     "C07": {"engine": "E1 sched-trace", "design_ref": "DESIGN.md 5/C07",
-            "technique": "TLA+ reference semantics (SchedCore) executed by TLC step by step against recorded runs; equality of every step and of final dates",
+            "technique": "TLA+ reference semantics (SchedCore) executed by TLC step by step against recorded runs; equality of every step and of final dates; MC_Core and MC_Tree universes: every terminal state of Sched.tla replayed into the code",
             "text": "for core-dialect projects every implementation step (pick order, cursor, offset, booking, release, dates) must equal the step the spec computes and the final dates must agree",
             "note": TRACE_NOTE},
     "C08": {"engine": "E1 sched-trace", "design_ref": "DESIGN.md 5/C08",
-            "technique": "TLA+ trace validation: no-idle predicates P08F/P08B at Finish and lead-in rule at Book",
+            "technique": "TLA+ trace validation: no-idle predicates P08F/P08B at Finish, lead-in rule at Book, backward tasks end by the deadline the spec computes",
             "text": "at Finish every on-shift slot between bound and end (deadline and end for ALAP) has no free tick; idle lead-in only in the bound's slot",
             "note": TRACE_NOTE},
     "C10": {"engine": "E1 sched-trace", "design_ref": "DESIGN.md 5/C10",
-            "technique": "TLA+ trace validation: container predicate P10 at every RollUp and on the final state",
+            "technique": "TLA+ trace validation: container predicate P10 at every RollUp and on the final state; MC_Tree universe (nested containers, inherited edges, edges on containers) model-checked and every project traced",
             "text": "container scheduled iff all children, start=min, end=max at every level; ledger keys are leaf resources and leaf tasks",
             "note": TRACE_NOTE},
 }
@@ -106,7 +106,7 @@ CLAIMS.update({
     "C12": {"engine": "E7 session", "design_ref": "DESIGN.md 5/C12",
             "technique": "TLC enumerates every API call history of Session.tla; each is replayed in one shared interpreter; observations compared with fresh-process observations by Relate.tla",
             "text": "all histories up to length 4 (5 sampled) over parse / parse-only / repeated schedule / report / CLI path and a rejected text, under 3 hash seeds, with and without extensions, shared and fresh parser objects; SessionMut.cfg shows the model is not vacuous",
-            "note": "trusted: TLC, subprocess isolation for the fresh-process reference; the texts are two fixed shapes (inheritance-heavy DAG; limits + scenarios) per seed"},
+            "note": "trusted: TLC, subprocess isolation for the fresh-process reference; the texts are three fixed shapes (inheritance-heavy DAG with tied and staggered alternatives and rates; limits + scenarios; the same tasks with the scenario value on the parent scenario) per seed"},
 })
 
 CLAIMS.update({
@@ -116,7 +116,7 @@ CLAIMS.update({
             "note": "trusted: TLC, CPython strftime/strptime (string rendering is compared by the harness: rendered_ok), csv/json modules"},
     "C19": {"engine": "E9 cli", "design_ref": "DESIGN.md 5/C19",
             "technique": "Cli.tla state machine model-checked (ExitContract, NoTrace, <>AllDone); every terminal state replayed against the real plan entry point as a subprocess",
-            "text": "all 160 situations input class x channel x format x own reports; exit status, what stdout is (auto report with SHA-256 report_id / nothing), stderr, leftovers; same rows across channels and own-report variants, same bytes across channels",
+            "text": "all 374 situations input class (missing, directory, empty, blank, syntax, model, not UTF-8, CRLF, partially schedulable, ok) x channel x format x own reports (incl. names that escape the output directory, refused names, sub-directories) x output target (stdout, new file, existing file, --force, missing directory, reader gone); exit status, what stdout is (auto report with SHA-256 report_id / nothing), stderr, leftovers; same rows across channels and own-report variants, same bytes across channels",
             "note": "trusted: TLC, subprocess / OS; entry point invoked as python -m scriptplan.cli.plan from the scratch copy"},
     "C20": {"engine": "E9 cli", "design_ref": "DESIGN.md 5/C20",
             "technique": "Cli.tla with 3 processes: all interleavings at file-operation granularity (NoTrace, Isolation; shared-name variant must fail); real concurrent rounds compared with solitary runs; strace file-operation logs checked by FsTrace.tla",
